@@ -144,7 +144,7 @@ Section C07_system.
     forall s, In s (y_nodes y) ->
       chain_ok C vrec (s_chain s) /\ genesis_of (s_chain s) = gen /\ grp_ok thr_of s.
   Proof.
-    exact (run_continuity C idx_of vpart recov vrec own_of vrec_unchained recov_sound Hp Hg thr_of F_of F_small gen gen_round).
+    exact (run_continuity C idx_of vpart recov vrec own_of vrec_unchained recov_sound Hp Hg thr_of F_of gen).
   Qed.
 End C07_system.
 Print Assumptions C07_system_continuity.
